@@ -85,7 +85,7 @@ def check(run, replay=None):
                 "3 inner points per step are queried (scalar and array form); non-trivial = scenario with >= 3 pieces; distinct by "
                 "(method, span, problem, history)")
     if replay and isinstance(replay.get("scenario"), dict) and "modelreplay" in replay["scenario"]:
-        modelreplay.phase(run, [], "C06", ('Pieces',), replay=replay["scenario"]["modelreplay"])
+        modelreplay.phase(run, [], "C06", ('Pieces', 'Lookup'), replay=replay["scenario"]["modelreplay"])
         return
     if replay:
         scs = odecore.replay_scenarios(replay)
@@ -134,6 +134,6 @@ def check(run, replay=None):
         run.violation(b["clause"], odecore.describe(sc) + " t0=%s" % sc["t0"], detail, replay=sc)
     if not replay:
         # spec -> code: behaviours of the design model replayed on the real code; the dense pieces must be the model's (one per recorded step, in order) at every API return
-        modelreplay.phase(run, ['OdeSystemSim_fixed_nofault'], "C06", ('Pieces',), keep=None)
+        modelreplay.phase(run, ['OdeSystemSim_fixed_nofault'], "C06", ('Pieces', 'Lookup'), keep=None)
     run.assumptions += ["histories keep one direction per system (the 'containing step' is ambiguous when steps overlap, DESIGN.md section 10)",
                         "the O(h^4) clause is decided on the two rational-solution problems only; bound constant DenseMidQuotient = 8"]
